@@ -58,6 +58,11 @@ CLAIMED = {
     note="Everything that goes through ParsedName::parse_ref - Question/record parsing, section iteration, canonical_name, is_answer, typed RDATA with names, display - is outside the claim: CBMC's symbolic execution of parse_ref's two nested loops does not finish even on 4 octets or on fully concrete input (measurements in DESIGN section 2), so two of the three known counterexamples of this property (ANCOUNT overflow in canonical_name, non-XFR question in the XFR interpreter) are not decided here. Typed RDATA parsing for name-free types is covered under C05.",
     technique=KANI + "; termination via unwinding assertions with a pigeonhole bound, non-termination counterexamples replayed natively from the CBMC trace",
     ref="DESIGN.md §4 C01"),
+ "C09": dict(
+    text="The sequential kernel of snapshot isolation, the per-item version vector: for a committed history and a writer working at the next version, every reader pinned at a committed version keeps seeing exactly its value through any two writer operations (update/remove/rollback), the writer sees its own last write, and rollback makes the open version invisible to everyone; the writer's version is strictly newer than every reader version within the RFC 1982 window, also across the 2^32 wrap.",
+    note="Quick tier decides histories of one committed entry (CBMC runs out of memory on the Vec growth paths for empty and two-entry histories; those variants are thorough-tier and may end undecided). Real-thread schedules, the async write mutex, publication of the new version on commit, walk() and the zone tree itself (hashbrown + Arc + locks) are outside the claim: Kani does not model concurrency.",
+    technique=KANI + "; differential against a version->value reference model, hook re-exports the private Versioned type",
+    ref="DESIGN.md §4 C09"),
 }
 
 NA = {
